@@ -647,6 +647,12 @@ func (s *Sched) finish(t *task) {
 		return
 	}
 	if t.err != nil {
+		// errs counts failures with NOTHING changing between them (a failure that repeats on the same state is not
+		// retried for ever by the harness); an attempt that failed after something had changed since the last
+		// failure - typically a version conflict of a pre-empted step - starts the count again
+		if now := s.Effects() + s.w.Topo.WriteCount(); it.errs > 0 && now != it.failedAt {
+			it.errs = 0
+		}
 		it.errs++
 		it.failedAt = s.Effects() + s.w.Topo.WriteCount()
 		s.seq++
